@@ -96,6 +96,8 @@ def make_payloads(payload):
                 p2.validate()
                 if p2.total_len != len(d):
                     raise ValueError("total_len differs from the number of bytes")
+                if len(p2.export_image().export()) != len(d):      # the parsed object must be exportable again (C01's matter)
+                    raise ValueError("re-export of the parsed MBI differs in length")
                 return d
             except Exception as ex:  # noqa
                 last = ex
